@@ -18,6 +18,7 @@ let k256_codec = k256_codec_f () and p256_codec = p256_codec_f ()
 let pallas_codec = pallas_codec_f () and vesta_codec = vesta_codec_f ()
 let blsg1_codec = blsg1_codec_f () and ed25519_codec = ed25519_codec_f ()
 let curve25519_params = curve25519_params_f ()
+let blsg2_codec = blsg2_codec_f ()
 let curve25519_c = curve25519_params.mp_c
 
 let wcodec_of = function
@@ -33,6 +34,23 @@ let show_w = function
 let show_e = function
   | None -> "REJ"
   | Some (x, y) -> Printf.sprintf "OK %s,%s" (hex_of_z x) (hex_of_z y)
+
+let show_w2 = function
+  | None -> "REJ"
+  | Some None -> "OK inf"
+  | Some (Some ((x0, x1), (y0, y1))) ->
+    Printf.sprintf "OK %s,%s,%s,%s" (hex_of_z x0) (hex_of_z x1) (hex_of_z y0) (hex_of_z y1)
+
+let parse_w2 (s : string) =
+  if s = "inf" then None
+  else match String.split_on_char ',' s with
+    | [x0; x1; y0; y1] -> Some ((z_of_hex x0, z_of_hex x1), (z_of_hex y0, z_of_hex y1))
+    | _ -> failwith ("bad G2 point " ^ s)
+
+(* an Fp2 element handed over as one integer c0 * 2^384 + c1 (the bytes c0 || c1 of the API) *)
+let split2 (v : Big_int_Z.big_int) =
+  let m = Big_int_Z.power_int_positive_int 2 384 in
+  (Big_int_Z.div_big_int v m, Big_int_Z.mod_big_int v m)
 
 (* curve25519: the model value is the Edwards point, the observable is (u, v) *)
 let show_x = function
@@ -81,6 +99,8 @@ let decode codec fmt bs =
   | ("k256" | "p256"), "u" -> show_w (sec1_dec_u (wcodec_of codec) bs)
   | ("pallas" | "vesta"), "c" -> show_w (pasta_dec_c (wcodec_of codec) bs)
   | ("pallas" | "vesta"), "u" -> show_w (pasta_dec_u (wcodec_of codec) bs)
+  | "blsg2", "c" -> show_w2 (blsg2_dec_c blsg2_codec bs)
+  | "blsg2", "u" -> show_w2 (blsg2_dec_u blsg2_codec bs)
   | "blsg1", "c" -> show_w (blsg1_dec_c blsg1_codec bs)
   | "blsg1", "u" -> show_w (blsg1_dec_u blsg1_codec bs)
   | "ed25519", "c" -> show_e (ed_dec_c ed25519_codec bs)
@@ -99,6 +119,8 @@ let encode codec fmt pt =
   | ("k256" | "p256"), "u" -> hex_of_bytes (sec1_enc_u (wcodec_of codec) (parse_w pt))
   | ("pallas" | "vesta"), "c" -> hex_of_bytes (pasta_enc_c (wcodec_of codec) (parse_w pt))
   | ("pallas" | "vesta"), "u" -> hex_of_bytes (pasta_enc_u (wcodec_of codec) (parse_w pt))
+  | "blsg2", "c" -> hex_of_bytes (blsg2_enc_c blsg2_codec (parse_w2 pt))
+  | "blsg2", "u" -> hex_of_bytes (blsg2_enc_u blsg2_codec (parse_w2 pt))
   | "blsg1", "c" -> hex_of_bytes (blsg1_enc_c blsg1_codec (parse_w pt))
   | "blsg1", "u" -> hex_of_bytes (blsg1_enc_u blsg1_codec (parse_w pt))
   | ("ed25519" | "ed25519p"), "c" -> hex_of_bytes (ed_enc_c ed25519_codec (parse_e pt))
@@ -117,6 +139,7 @@ let () =
         (match codec with
          | "k256" | "p256" | "pallas" | "vesta" -> show_w (w_from_affine (wcodec_of codec) x y)
          | "blsg1" -> show_w (blsg1_from_affine blsg1_codec x y)
+         | "blsg2" -> show_w2 (blsg2_from_affine blsg2_codec (split2 x) (split2 y))
          | "ed25519" -> show_e (ed_from_affine ed25519_codec x y)
          | "ed25519p" -> show_e (edp_from_affine ed25519_codec x y)
          | "x25519" -> show_x (x_from_affine ed25519_codec curve25519_c x y)
@@ -131,6 +154,10 @@ let () =
         if fld = "ed.fp" then show_f (fld25519_from_wide ed25519_codec.ec.ep_p (bytes_of_hex h))
         else let (q, len) = field_of fld in show_f (fld_from_wide q (nat_of_int len) (bytes_of_hex h))
       | ["FE"; fld; v] -> let (_, len) = field_of fld in hex_of_bytes (fld_enc (nat_of_int len) (z_of_hex v))
+      | ["G"; h] ->
+        (match gt_from_bytes blsg1_codec.wc.wp_p blsg1_codec.wc.wp_n (nat_of_int 48) (bytes_of_hex h) with
+         | None -> "REJ"
+         | Some x -> "OK " ^ String.concat "," (List.map hex_of_z (gt_coeffs x)))
       | ["QR"; codec] -> let c = wcodec_of codec in hex_of_z (euler (wc_p c) c.wc.wp_b)
       | _ -> failwith ("bad line " ^ line) in
     print_string out; print_newline ())
